@@ -98,6 +98,49 @@ pub proof fn lemma_op_preserves_uniq<T>(kids: Seq<Necessity<Element<T>>>, op: Tr
         TreeOp::Other => {},
     }
 }
+/// marking optional, read as a map operation: only the named entry changes, and only its tag
+pub proof fn lemma_mark_optional_map<T>(kids: Seq<Necessity<Element<T>>>, name: T)
+    requires uniq_kids(kids),
+    ensures marked_optional_map(kids, apply_op(kids, TreeOp::MarkOptional(name)), name),
+{
+    lemma_kid_idx(kids, name);
+    let i = kid_idx(kids, name);
+    let new = apply_op(kids, TreeOp::MarkOptional(name));
+    if i < kids.len() {
+        let r = kids.remove(i);
+        assert(forall|j: int| 0 <= j < r.len() ==> (#[trigger] r[j]) == (if j < i { kids[j] } else { kids[j + 1] }));
+        assert(new == r.push(Necessity::Optional(kids[i].val())));
+        assert forall|n: T| #[trigger] entry(new, n) == (if n == name {
+                match entry(kids, n) { Some(k) => Some(Necessity::Optional(k.val())), None => None }
+            } else { entry(kids, n) }) by {
+            lemma_kid_idx(kids, n);
+            let j = kid_idx(kids, n);
+            if n == name {
+                assert forall|t: int| 0 <= t < r.len() implies (#[trigger] new[t]).val().name != name by {
+                    let kt = if t < i { t } else { t + 1 };
+                    assert(new[t] == kids[kt]);
+                    if kt < i { assert(kids[kt].val().name != kids[i].val().name); } else { assert(kids[i].val().name != kids[kt].val().name); }
+                }
+                assert(new[r.len() as int].val().name == name);
+                lemma_kid_idx_is(new, name, r.len() as int);
+            } else if j >= kids.len() {
+                assert forall|t: int| 0 <= t < new.len() implies (#[trigger] new[t]).val().name != n by {
+                    if t < r.len() { let kt = if t < i { t } else { t + 1 }; assert(new[t] == kids[kt]); }
+                }
+                lemma_kid_idx_is(new, n, new.len() as int);
+            } else {
+                assert(j != i);
+                let nj = if j < i { j } else { j - 1 };
+                assert(new[nj] == kids[j]);
+                assert forall|t: int| 0 <= t < nj implies (#[trigger] new[t]).val().name != n by {
+                    let kt = if t < i { t } else { t + 1 };
+                    assert(new[t] == kids[kt]);
+                }
+                lemma_kid_idx_is(new, n, nj);
+            }
+        }
+    }
+}
 /// THEOREM (C16, tree half): child names stay unique under EVERY finite sequence of the public operations
 pub proof fn theorem_c16_all_sequences<T>(kids: Seq<Necessity<Element<T>>>, ops: Seq<TreeOp<T>>)
     requires uniq_kids(kids),
